@@ -17,7 +17,7 @@ ID = "C16"
 LEVEL = "exploration"
 RULE = ("random parent domains (1-5 parents, inner lists of length 0-4 drawn with repetition from 5 element objects, so lists "
         "overlap and repeat; a scalar attribute as well) x selection {elem | parent,elem | elem,parent} x condition "
-        "{none | elem.n>t | parent.k>t | both | elem joined with another variable | or_ / and_ / several / negated conditions on the element} x caching on/off; results compared as "
+        "{none | elem.n>t | parent.k>t | both | elem joined with another variable | three conditions joining the element, the parent and two further variables | or_ / and_ / several / negated conditions on the element} x caching on/off; results compared as "
         "multisets of identities. Non-trivial: at least two parents have different non-empty lists and the result is "
         "neither empty nor everything. distinct by structural hash.")
 LEVEL_TEXT = ("Reference-model monitoring: rows of the real flatten query compared by identity and multiplicity with the "
@@ -55,7 +55,7 @@ def plan(tier, seed):
 
 def floors(tier):
     return {"distinct_nontrivial": 400, "cls:sel:elem": 500, "cls:sel:parent_elem": 500, "cls:sel:elem_parent": 300,
-            "cls:cond:none": 200, "cls:cond:elem": 200, "cls:cond:parent": 200, "cls:cond:both": 200, "cls:cond:join": 200, "cls:cond:elem_or": 200, "cls:cond:elem_stacked": 200, "cls:cond:elem_and": 200, "cls:cond:elem_not": 200,
+            "cls:cond:none": 200, "cls:cond:elem": 200, "cls:cond:parent": 200, "cls:cond:both": 200, "cls:cond:join": 200, "cls:cond:join3": 200, "cls:cond:elem_or": 200, "cls:cond:elem_stacked": 200, "cls:cond:elem_and": 200, "cls:cond:elem_not": 200,
             "cls:scalar": 200, "cls:plain_scalar_value": 60, "cls:reevaluated_after_inner_lists_changed": 150, "cls:has_empty_list": 500, "cls:has_repeated_element": 500, "re:Flatten(@.*)?\\.enter": 2000}
 
 
@@ -75,7 +75,8 @@ def gen_case(rng):
         return {"world": w, "sel": rng.choice(["elem", "parent_elem", "elem_parent"]), "cond": rng.choice(["none", "parent"]),
                 "thr": 1, "kthr": rng.randint(0, 3), "thr2": 1, "scalar": True, "plain_scalar": True, "caching": rng.random() < 0.7}
     return {"world": gen_world(rng), "sel": rng.choice(["elem", "parent_elem", "parent_elem", "elem_parent"]),
-            "cond": rng.choice(["none", "elem", "parent", "both", "join", "elem_or", "elem_stacked", "elem_and", "elem_not"]),
+            "cond": rng.choice(["none", "elem", "parent", "both", "join", "join3", "elem_or", "elem_stacked", "elem_and", "elem_not"]),
+            "cond_order": rng.choice([[0, 1, 2], [2, 1, 0], [1, 0, 2], [2, 0, 1]]),
             "thr": rng.randint(1, 4), "kthr": rng.randint(0, 3), "thr2": rng.randint(1, 5),
             "scalar": rng.random() < 0.15, "caching": rng.random() < 0.7}
 
@@ -114,6 +115,10 @@ def expected(case, es, ps):
             if c == "join":
                 # joined with d over es[:3]: e == d  -> element must be one of the first three element objects
                 ok = any(x is d for d in es[:3])
+            if c == "join3":
+                # three more variables: d over es[:3], z over es[2:], conditions z.n >= d.n, p.k >= d.n, e.n < d.n;
+                # d and z are not selected, so the row (parent, element) qualifies if SOME d, z exist
+                ok = any(z.n >= d.n and p.k >= d.n and x.n < d.n for d in es[:3] for z in es[2:])
             if ok:
                 xl = f"E{es.index(x)}" if isinstance(x, E) else "scalar:" + repr(x)
                 out.append({"elem": (xl,), "parent_elem": (f"Par{pi}", xl), "elem_parent": (xl, f"Par{pi}")}[case["sel"]])
@@ -147,6 +152,11 @@ def build_query(case, es, ps):
         if c == "join":
             d = let(E, es[:3])
             conds.append(e == d)
+        if c == "join3":
+            d = let(E, es[:3])
+            z = let(E, es[2:])
+            three = [z.n >= d.n, p.k >= d.n, e.n < d.n]
+            conds += [three[i] for i in case.get("cond_order", [0, 1, 2])]
         if case["sel"] == "elem":
             q = an(entity(e, *conds))
         elif case["sel"] == "parent_elem":
@@ -215,6 +225,9 @@ def check_case(case, ctx):
     upper = Counter(exp)
     lower = Counter(expected(case, es, [Par(p.k, list(dict.fromkeys(p.items)), p.one) for p in ps]))
     g = Counter(got)
+    if case["cond"] == "join3":
+        # two joined variables are not selected: how often a (parent, element) row repeats is not specified, the row set is
+        upper, lower, g = Counter(set(exp)), Counter(set(exp)), Counter(set(got))
     miss = list((lower - g).elements())
     extra = list((g - upper).elements())
     if miss or extra:
